@@ -678,3 +678,152 @@ func c16ScopeChainEnds(c *Ctx, r *Result, funcs []*ssa.Function) {
 	}
 	r.Floor("R16h", n, 1)
 }
+
+// ---- R19e: plugin code runs under the bridge's recover -------------------------------------------
+
+// A plugin function is foreign Go code: it may panic for some arguments (args[0].(string) given a
+// number). The only recover in the project is the one of ECALFunctionAdapter.Run around the
+// reflective call. Every call of util.ECALPluginFunction.Run must therefore sit in a function that
+// registers a recovering defer itself, or in a function literal that is only ever handed to
+// reflect.ValueOf (and so only runs through the adapter's reflective call, R19a).
+func c19PluginUnderRecover(c *Ctx, r *Result) {
+	iface := c.Interface("util", "ECALPluginFunction")
+	if iface == nil {
+		r.Undecide("R19e: util.ECALPluginFunction not found")
+		return
+	}
+	n := 0
+	for _, fn := range c.ModFuncs() {
+		key := c.FuncKey(fn)
+		ord := newOrdinals()
+		allInstrs(fn, func(in ssa.Instruction) {
+			ci, ok := in.(ssa.CallInstruction)
+			if !ok || !ci.Common().IsInvoke() || ci.Common().Method.Name() != "Run" || !types.Identical(ci.Common().Value.Type().Underlying(), iface) {
+				return
+			}
+			n++
+			site := ord.key(key, "plugin-run", accessPath(ci.Common().Value))
+			pos := c.Pos(c.InstrPos(in))
+			if ok, _ := recoverCovers(fn, in); ok {
+				r.Instance("R19e", site, pos, "ok", "under a recovering defer of the same function", true)
+				return
+			}
+			// the function (a literal, or a method used as a method value) is only ever handed to
+			// reflect.ValueOf: every function value made of it flows there, and nothing calls it directly
+			{
+				onlyReflect, uses := true, 0
+				targets := map[*ssa.Function]bool{fn: true}
+				if node := c.CHA().Nodes[fn]; node != nil {
+					for _, e := range node.In {
+						cf := e.Caller.Func
+						if cf.Synthetic != "" && strings.HasSuffix(cf.Name(), "$bound") {
+							targets[cf] = true
+							continue
+						}
+						if e.Site != nil && e.Site.Common().StaticCallee() == fn {
+							onlyReflect = false // called directly somewhere
+						}
+					}
+				}
+				var follow func(v ssa.Value, d int)
+				follow = func(v ssa.Value, d int) {
+					if v.Referrers() == nil || d > 3 {
+						onlyReflect = false
+						return
+					}
+					for _, ref := range *v.Referrers() {
+						switch y := ref.(type) {
+						case *ssa.DebugRef:
+						case *ssa.MakeInterface:
+							follow(y, d+1)
+						case *ssa.Call:
+							if callName(y) == "reflect.ValueOf" {
+								uses++
+							} else {
+								onlyReflect = false
+							}
+						default:
+							onlyReflect = false
+						}
+					}
+				}
+				for _, host := range c.ModFuncs() {
+					allInstrs(host, func(x ssa.Instruction) {
+						if mc, ok := x.(*ssa.MakeClosure); ok {
+							if tf, ok := mc.Fn.(*ssa.Function); ok && targets[tf] {
+								follow(mc, 0)
+							}
+						}
+					})
+				}
+				if onlyReflect && uses > 0 {
+					r.Instance("R19e", site, pos, "ok", "in a function that is only handed to reflect.ValueOf (as a literal or a method value): it runs through the adapter's reflective call, which is under the recover (R19a)", true)
+					return
+				}
+			}
+			r.Instance("R19e", site, pos, "finding", "plugin function called outside any recover", true)
+			r.Report(Finding{Rule: "R19e", Site: site, Pos: pos,
+				Msg: key + ": calls ECALPluginFunction.Run outside the scope of a recover: a plugin function that panics for some arguments (a failed type assertion on args[0], an index into an empty argument list) kills the interpreter instead of yielding an ECAL error"})
+		})
+	}
+	r.Floor("R19e", n, 1)
+}
+
+// ---- R19f: an arity test against NumIn() knows about variadic functions ---------------------------
+
+// reflect.Type.NumIn() counts the trailing ...T parameter. A lower bound on the number of given
+// arguments derived from it (len(args) < NumIn()) rejects every valid call of a variadic function
+// with an empty variadic part — and every plugin function goes through a func(...interface{})
+// wrapper. Such an ordering comparison is only sound next to a test of IsVariadic().
+func c19VariadicArity(c *Ctx, r *Result) {
+	n := 0
+	for _, fn := range c.ModFuncs() {
+		if c.PkgOf(fn) != "stdlib" {
+			continue
+		}
+		key := c.FuncKey(fn)
+		ord := newOrdinals()
+		isNumIn := func(v ssa.Value) bool {
+			call, ok := stripNumConv(v).(*ssa.Call)
+			return ok && call.Call.IsInvoke() && call.Call.Method.Name() == "NumIn"
+		}
+		variadicAware := false
+		allInstrs(fn, func(in ssa.Instruction) {
+			if ci, ok := in.(ssa.CallInstruction); ok && ci.Common().IsInvoke() && ci.Common().Method.Name() == "IsVariadic" {
+				variadicAware = true
+			}
+		})
+		allInstrs(fn, func(in ssa.Instruction) {
+			bo, ok := in.(*ssa.BinOp)
+			if !ok || (!isNumIn(bo.X) && !isNumIn(bo.Y)) {
+				return
+			}
+			switch bo.Op {
+			case token.EQL, token.NEQ, token.LSS, token.LEQ, token.GTR, token.GEQ:
+			default:
+				return
+			}
+			n++
+			site := ord.key(key, "arity-test", bo.Op.String())
+			pos := c.Pos(c.InstrPos(in))
+			// a lower bound on the given arguments: given < NumIn, given <= NumIn-…, NumIn > given
+			lower := false
+			switch {
+			case isNumIn(bo.Y) && (bo.Op == token.LSS || bo.Op == token.LEQ):
+				lower = true
+			case isNumIn(bo.X) && (bo.Op == token.GTR || bo.Op == token.GEQ):
+				lower = true
+			case bo.Op == token.NEQ:
+				lower = true // given != NumIn rejects fewer as well
+			}
+			if !lower || variadicAware {
+				r.Instance("R19f", site, pos, "ok", "not a lower bound on the number of arguments, or IsVariadic() is consulted", true)
+				return
+			}
+			r.Instance("R19f", site, pos, "finding", "lower bound from NumIn() without IsVariadic()", true)
+			r.Report(Finding{Rule: "R19f", Site: site, Pos: pos,
+				Msg: key + ": requires at least NumIn() arguments without consulting IsVariadic(): NumIn counts the trailing variadic parameter, so a valid call of a variadic function with an empty variadic part (fmt.Sprint(), every plugin function called without arguments) is answered with 'too few parameters' instead of the function's result"})
+		})
+	}
+	r.Floor("R19f", n, 1)
+}
